@@ -435,7 +435,7 @@ pub fn run(ctx: &Ctx) -> Outcome {
     out.cov("histogram", json!(acc.counters));
     out.cov("notes", json!(acc.self_check_errors));
     out.cov("samples", json!([grammar_for(&spell(&all[n / 2], 5), &spell(&all[n / 3], 1))]));
-    if !located_all {
+    if !located_all && acc.findings.is_empty() {
         machinery_error(format!("C13: the use sites of {} emitted texts could not be located ({:?})", acc.get("emitted texts whose use sites could not be located (oracle not applicable)"), acc.self_check_errors.first()));
     }
     out.violating_cases = acc.violating;
